@@ -28,6 +28,8 @@ def groups(tier):
             gs.append({'name': 'pre-hybrid-%dx%d' % (ka, kb), 'fn': pre_group, 'args': {'ka': ka, 'kb': kb, 'L': 1, 'hybrid': True}})
     if tier != 'quick':
         gs.append({'name': 'pre-concrete-1x1', 'fn': pre_group, 'args': {'ka': 1, 'kb': 1, 'L': 2, 'hybrid': False}})
+    if tier != 'quick':
+        gs.append({'name': 'kani-k1', 'fn': kani_group, 'args': {}, 'timeout_s': 1500})
     gs.append(validation_group(('intersect', 'satisfies'), tier))
     return gs
 
@@ -110,3 +112,22 @@ def pre_group(s, ka, kb, L, hybrid=True):
     s.prove(h, 'prerelease v satisfying the result lies within both and satisfies at least one', [h.is_pre(v)],
             z3.Implies(sI, AND(h.adm(A, v), h.adm(B, v), OR(sA, sB))), decode=dec, replay=judge_pointwise)
     s.bounds_ok(h, 'intersect %dx%d' % (ka, kb), [])
+
+
+def kani_group(s):
+    """lemma reported next to the verdicts: Bound::cmp is antisymmetric (engine M, then Kani on the compiled code)"""
+    from .. import kani
+    from ..values import En, fresh
+    h = s.harness(L=1, cap_bs=2)
+    bounds = []
+    for nm in ('a', 'b'):
+        p = h.predicate(nm)
+        side = z3.BitVec('side_' + nm, 8)
+        h.wf.append(z3.ULT(side, 2))
+        bounds.append(En(h.B, side, [[p], [p]]))
+    f = h.fn('Bound', 'Ord', 'cmp')
+    ab, ba = h.call(f, bounds[0], bounds[1]), h.call(f, bounds[1], bounds[0])
+    status, _, _ = h.check(h.wf, ba.tag == 2 - ab.tag)
+    s.add(ob='lemma: Bound::cmp is antisymmetric on arbitrary bounds (diagnostic; the verdicts above do not depend on it)', mode='concrete', solver_s=0.0, kind='prove',
+          verdict='holds' if status == 'unsat' else 'inconclusive', detail='' if status == 'unsat' else 'Bound::cmp is not antisymmetric (%s)' % status)
+    kani.cross_check(s, 'k1_bound_cmp_antisym', status == 'unsat', 'Bound::cmp antisymmetric on two arbitrary bounds')
